@@ -18,6 +18,10 @@ CLAIMED = {
          "Unbounded theorems (Props/C06.v): whenever the regenerated try_to_merge_ops merges two extends, the merged step denotes column for column the same frame as the two steps applied in turn, and assigns exactly their columns -- for all assignment dictionaries (overwriting/repeated assignments included), all frames and all column functions that look only at the expression's columns and the window columns. A source change re-checks the proof (it was unprovable until the fix 6dc26b4). Order_rows elimination and select/drop collapsing are exercised by two implementation-level oracles on every run: chained vs step-by-step evaluation on Pandas, and accept/reject agreement between a simplified prefix and a bare table description (partial: no theorem yet for those two simplifications).",
          "Trusted: Coq kernel, vm_compute, tools/py2v.py, Model/Extend.v as the meaning of extend, get_columns_used as union of column sets (correspondence-checked). Partial: order_rows elimination / select-collapse are oracle-only.",
          "DESIGN.md section 5 C06"),
+ "C20": ("Coq proofs about hand-written state-machine models of DataModelSpace and DBSpace (step lemmas from every state + invariant by induction over histories + a refuted statement with witness); models tied to the code by differential correspondence of random histories evaluated in Coq",
+         "Unbounded theorems (Props/C20.v, 15): for both spaces, from every (invariant-satisfying) state: a successful insert/execute is exactly a map write of the result computed on the current contents, a write with allow_overwrite=False on an existing key fails and changes nothing, an automatic key is never in use (pigeonhole over injective names) so it never replaces an entry, remove/retrieve/keys reflect the map, failed operations change nothing -- for DBSpace only outside the listed finding, whose refutation witness is itself a theorem. The models are hand-written; every run replays hundreds of random histories (user keys include da_temp_<n>) on the real classes (DBSpace on SQLite) and on the models inside Coq, and a plain-dict oracle checks the real classes directly.",
+         "Trusted: Coq kernel, vm_compute, fidelity of Model/DataSpace.v (sampled every run), injectivity of f'da_temp_{n}', SQLite behind DBSpace; close()/model_table() not modelled.",
+         "DESIGN.md section 5 C20"),
 }
 NOT_YET = "check not built yet (work in progress; see DESIGN.md section 8 build order)"
 
